@@ -6,6 +6,8 @@ from multiprocessing import Pool
 import numpy as np
 import pandas as pd
 
+import project as pj
+
 PEAK = ['sample_last_zerox_decay', 'sample_last_trough', 'sample_zerox_rise', 'sample_peak', 'sample_zerox_decay', 'sample_next_trough']
 TROUGH = ['sample_last_zerox_rise', 'sample_last_peak', 'sample_zerox_decay', 'sample_trough', 'sample_zerox_rise', 'sample_next_peak']
 
@@ -55,7 +57,7 @@ def _chunk(args):
         m = mask(s)
         for L in [d for d in range(1, ns + 1) if ns % d == 0]:
             try:
-                dfs = epoch_df(table_of(s), ns, L)
+                dfs = epoch_df(pj.relabel(table_of(s), m + L), ns, L)
                 ep['%d/e%d' % (m, L)] = [flat(d) for d in dfs]
             except Exception:
                 ep['%d/e%d' % (m, L)] = [[-1]]
@@ -69,7 +71,7 @@ def _chunk(args):
                         try:
                             st = None if a is None else a / 2.0
                             sp = None if b is None else b / 2.0
-                            out = limit_df(table_of(s, peak), 1, start=st, stop=sp, reset_indices=reset)
+                            out = limit_df(pj.relabel(table_of(s, peak), m + (a or 0) + (b or 0) + peak), 1, start=st, stop=sp, reset_indices=reset)
                             sg, tm = limit_signal(np.arange(ns, dtype=float), np.arange(ns), start=st, stop=sp)
                             lim[key] = {'ok': 1, 'rows': flat(out, peak), 'sig': [int(x) for x in sg]}
                         except Exception:
